@@ -1156,6 +1156,28 @@ fn known_inputs() -> Vec<(String, String)> {
         ("c02:off-zero-arg-operand", "⤚1 2".to_string()),
         ("c02:with-sub-zero", "⤙₂1 2 3".to_string()),
         ("zip-cache-single", "≡⊢ ↯2_0 0".to_string()),
+        // repaired in round 2 (A1-A9, C1): must stay quiet
+        ("r2:A1-pervade-fill", "⬚@a+ ↯1_4 1 ↯3_0 @b".to_string()),
+        ("r2:A2-row-slices", "⬚@x⌵ ↯0_0 @a".to_string()),
+        ("r2:A3-all-same-empty-rows", "=1⧻◴ ↯0_3 0\n/≍ ↯3_0 0\n≍⊸⊢ ↯3_0 0".to_string()),
+        ("r2:A4-switch-unwrap", "⨬(&fif)(())↯2_1⇡9↯2_0@5".to_string()),
+        ("r2:A5-each-empty", "∵(++) [] 1 2\n(type)∵((+)()()↧)□[]↯2_0⇡7".to_string()),
+        ("r2:A6-zero-dim-overflow", "↙3↯0_1e10_1e10 0".to_string()),
+        ("r2:A6-zero-dim-overflow2", "↯4294967296_4294967296_0 0".to_string()),
+        ("r2:A7-validate-neg", "# Experimental!\n⊨.[¯4]".to_string()),
+        ("r2:A7-validate-neg2", "#Experimental!\n()⊨[¯3][][]".to_string()),
+        ("r2:A7-validate-nan", "# Experimental!\n⊨ NaN ↯0_3 0".to_string()),
+        ("r2:A8-take-huge", "⬚0↙1e12[]".to_string()),
+        ("r2:A8-take-huge2", "↙1e12_1 [1_2 3_4]".to_string()),
+        ("r2:A8-group-huge", "⊕□[1e12][1]".to_string()),
+        ("r2:A8-unshape-huge", "[]⬚∞°⊸△1e10[]".to_string()),
+        ("r2:A8-unshape-huge2", "⬚0°⊸△ [1e10 1e10] [1]".to_string()),
+        ("r2:A9-tcp-timeout", "(()&tcpswt)()1e38[]\n&tcpsrt 1e38 0\n&tcpsrt NaN 0".to_string()),
+        ("r2:C1-try-timeout", "F ← |1 ⍣F F\nF 1".to_string()),
+        ("r2:C1-try-timeout2", "F ← |1 ⍣(F|F)\nF 1".to_string()),
+        // still open when round 2 landed
+        ("open:ecow-capacity", "\"\"⬚@-°⟜⊏[4 2 1e19]\"abc\"".to_string()),
+        ("open:rows-reduce-min-huge", "≡/↧↯4294967296_0e".to_string()),
     ];
     v.into_iter().map(|(n, s)| (n.to_string(), s)).collect()
 }
@@ -1382,7 +1404,8 @@ fn search(n: usize, thorough: bool) {
             // abort/hang keys of the fixed corpora are per generator name (a stable, readable key)
             if f.kind == "abort" || f.kind == "hang" {
                 if !inputs[i].label.is_empty() {
-                    base = format!("{}#{}", base, inputs[i].label.split(':').next().unwrap_or(""));
+                    let lab = if inputs[i].family == "known" { inputs[i].label.replace(':', "-") } else { inputs[i].label.split(':').next().unwrap_or("").to_string() };
+                    base = format!("{}#{}", base, lab);
                 } else if f.kind == "hang" {
                     base = format!("{}#{}", base, rep_sig(&inputs[i].src));
                 }
@@ -1551,6 +1574,18 @@ fn tie() {
         vec![128, 128, 128, 4],
         vec![128, 128, 128, 4, 1, 1, 1],
         vec![128, 128, 129, 4],
+        // zero dimension: the other dimensions must multiply (as f64) to at most 2^63 (commit 1cc30f2)
+        vec![0, 4294967296, 2147483648],
+        vec![0, 4294967296, 2147483649],
+        vec![4294967296, 2147483648, 0],
+        vec![0, 3037000499, 3037000499],
+        vec![0, 3037000500, 3037000500],
+        vec![3037000500, 0, 3037000500, 1],
+        vec![0, 9223372036854775807],
+        vec![0, 9223372036854775807, 2],
+        vec![0, 0, 9223372036854775808],
+        vec![0, 65536, 65536, 65536, 32768],
+        vec![0, 65536, 65536, 65536, 32769],
     ];
     for (elem, lit, es) in [("f64", "0.5", 8u64), ("u8", "0", 1), ("char", "@a", 4)] {
         for d in &dimsets {
@@ -1586,9 +1621,9 @@ fn tie() {
         writeln!(src, "M{}!+ 1 2", to_alpha(k - 1)).unwrap();
         cases.push(("macro".into(), format!("{{\"k\":{k}}}"), src, ST_C_LAZY, "64"));
     }
-    // (6) confirmation of size_guard_refuted: an accepted shape (a zero dimension) whose row length overflows usize
-    cases.push(("refuted".into(), "{\"dims\":[0,10000000000,10000000000]}".into(), "⬚0↙3 ↯0_1e10_1e10 0".into(), ST_RUN, "64"));
-    cases.push(("refuted".into(), "{\"dims\":[4294967296,4294967296,0]}".into(), "↯4294967296_4294967296_0 0".into(), ST_RUN, "64"));
+    // (6) regression: the witnesses of size_guard_refuted_pre (an empty shape whose row length overflows usize) must be refused now
+    cases.push(("regression".into(), "{\"es\":1,\"dims\":[0,10000000000,10000000000],\"limit\":67108864}".into(), "⬚0↙3 ↯0_1e10_1e10 0".into(), ST_RUN, "64"));
+    cases.push(("regression".into(), "{\"es\":1,\"dims\":[4294967296,4294967296,0],\"limit\":67108864}".into(), "↯4294967296_4294967296_0 0".into(), ST_RUN, "64"));
     let mut workers: BTreeMap<&'static str, Worker> = BTreeMap::new();
     for (guard, param, src, mask, mb) in cases {
         let w = workers.entry(mb).or_insert_with(|| Worker::new(mb));
